@@ -68,7 +68,7 @@ impl Property for C13 {
         ]
     }
     fn expected_probes(&self) -> Vec<&'static str> {
-        vec!["recorder_short_writes", "recorder_error", "recorder_write_zero", "load_same_emulator", "load_fresh_dirty", "locked_state", "sp_in_screen", "twin_continuation", "save_failed_cleanly", "iff1_differs_from_iff2_at_save", "save_retried_after_failure", "cpu_halted_at_save", "save_inside_prefix_chain", "save_right_behind_ei"]
+        vec!["recorder_short_writes", "recorder_error", "recorder_write_zero", "load_same_emulator", "load_fresh_dirty", "locked_state", "sp_in_screen", "twin_continuation", "save_failed_cleanly", "iff1_differs_from_iff2_at_save", "save_retried_after_failure", "cpu_halted_at_save", "save_inside_prefix_chain", "save_right_behind_ei", "save_with_sp_in_rom", "receiver_with_io_extender"]
     }
 
     fn gen(&self, rng: &mut Rng, _tier: Tier, _idx: u64) -> Scenario {
@@ -76,7 +76,7 @@ impl Property for C13 {
         sc.set("m128", rng.bool() as i64);
         sc.set("seed", (rng.next() >> 8) as i64);
         sc.set("halted", rng.chance(1, 5) as i64);
-        sc.set("sp_class", rng.range(0, 6));
+        sc.set("sp_class", rng.range(0, 7));
         sc.set("prefix_at_save", rng.chance(1, 8) as i64);
         sc.set("ei_at_save", rng.chance(1, 8) as i64);
         sc.set("steps", *rng.pick(&[0i64, 0, 1, 7, 300]));
@@ -104,6 +104,9 @@ impl Property for C13 {
             3 => 0xC002 + (rng.u16() & 0x3FF0),
             // the two bytes below SP straddle the border between two 16 KiB pages (or sit right at it)
             5 => *rng.pick(&[0xC001u16, 0xC001, 0xC000, 0xC002, 0xC003, 0x4002, 0x4003]), // (not around 0x8000: the idle program lives there)
+            // the stack pointer parked in ROM (a program reading a ROM table with POP): outside what a load can
+            // restore on the 48K, but taking the snapshot must still leave the machine - its ROM included - alone
+            7 => *rng.pick(&[0x0002u16, 0x0012, 0x0100, 0x1234, 0x3FFF, 0x4000, 0x4001, 0x0001]),
             _ => s.cpu.sp,
         };
         if m128 && s.port_7ffd & 7 == 2 && s.cpu.sp >= 0xC000 && matches!(sc.get("sp_class"), 3 | 5) {
@@ -228,6 +231,17 @@ impl Property for C13 {
             }
             _ => {}
         }
+        let rom_sum = |e: &mut Emu| -> u64 {
+            let mut h = Fnv::new();
+            for p in 0..if m128 { 2u8 } else { 1 } {
+                for b in e.verif_rom_page(p).iter() {
+                    h.u8(*b);
+                }
+            }
+            h.get()
+        };
+        let sp_in_rom = sc.get("sp_class") == 7;
+        let rom_before = if sp_in_rom { rom_sum(&mut e) } else { 0 };
         let h_before = full_hash(&mut e, m128);
         let (rec, out) = SimRecorder::new(plan);
         let r = crate::runner::catch(|| e.save_snapshot(SnapshotRecorder::Sna(rec)).map_err(|x| format!("{:?}", x)));
@@ -251,6 +265,14 @@ impl Property for C13 {
                 &format!("machine={},save_ok={}", machine, r.is_ok() as u8),
                 format!("taking an SNA snapshot changed the running machine ({}); recorder fault kind {}", what, fault),
             ));
+        }
+        if sp_in_rom {
+            ctx.probe("save_with_sp_in_rom");
+            if rom_sum(&mut e) != rom_before {
+                return Err(Fail::new("C13.save_side_effect", &format!("machine={},save_ok={},rom=1", machine, r.is_ok() as u8), format!("taking an SNA snapshot with SP = {:04X} changed the ROM of the running machine", saved_cpu.sp)));
+            }
+            ctx.units += 1;
+            return Ok(());
         }
         if prefix_at_save {
             ctx.units += 1;
@@ -315,6 +337,14 @@ impl Property for C13 {
             fresh_holder = Some(r2);
         }
         ctx.fault("snapshot_load@instant");
+        // the receiving machine may have a host I/O extender installed that claims ports of its own - the paging
+        // port among them; restoring a snapshot is no port access and never goes through it
+        let ext_on_receiver = (sc.get("seed") >> 29) & 3 == 0;
+        if ext_on_receiver {
+            ctx.probe("receiver_with_io_extender");
+            let target: &mut Emu = if same { &mut e } else { fresh_holder.as_mut().unwrap() };
+            target.set_io_extender(SimExtender { claimed: vec![0x7FFD, 0x00FE, 0xFFFD, 0xBFFD, 0x1FFD], log: vec![], read_xor: 0x5A });
+        }
         let plan = AssetPlan { max_chunk: sc.get("chunk").max(0) as usize, ..Default::default() };
         let (asset, _) = SimAsset::new(bytes.clone(), plan);
         let target: &mut Emu = if same { &mut e } else { fresh_holder.as_mut().unwrap() };
@@ -323,6 +353,10 @@ impl Property for C13 {
             Err(pi) => return Err(Fail::new("C13.panic", &format!("at={}", crate::runner::panic_site(&pi)), format!("loading the saved snapshot panicked at {}:{}: {}", pi.file, pi.line, pi.msg))),
             Ok(Err(x)) => return Err(Fail::new("C13.load_failed", &format!("machine={},dirt={}", machine, if same { "same" } else { DIRT[dirt] }), format!("the emulator rejected its own snapshot ({} bytes): {}", bytes.len(), x))),
             Ok(Ok(())) => {}
+        }
+        if ext_on_receiver {
+            // (the checks below write ports themselves: the extender goes back to claiming nothing)
+            target.set_io_extender(SimExtender { claimed: vec![], log: vec![], read_xor: 0 });
         }
         // ---- every SNA-carried item equals the saved state
         let dname = if same { "same" } else { DIRT[dirt] };
